@@ -285,6 +285,12 @@ func RunSaga(c *core.Ctx) {
 		exit = "converged"
 	}
 	c.Count("exit:" + exit)
+	// the starting point is the caller's
+	for i := range x0 {
+		if xstart.Float64At(i) != x0[i] {
+			c.Fail("x0-unchanged", what+"|x0-moved", "%s moved the starting point it was given: %v -> %v", what, x0, floats(xstart))
+		}
+	}
 	c.Logf("exit=%s after %d epochs, %d evaluations, returned %v err=%v", exit, hookCalls, evals, vecFloats(xr), err)
 	c.Nontriv = evals >= n+3
 	c.StateStr(fmt.Sprint(what, reg, exit, d, failKind, hookStopAt > 0))
